@@ -116,7 +116,7 @@ AllAspects == {"view", "instant", "fn", "evict", "vis", "count"}
 
 AspectsOf(prop) ==
   CASE prop = "C01" -> {"view", "vis"}
-    [] prop = "C05" -> {"fn"}
+    [] prop = "C05" -> {"fn", "view"}
     [] prop = "C06" -> {"evict"}
     [] prop = "C07" -> {"vis"}
     [] prop = "C08" -> {"count"}
